@@ -1386,7 +1386,9 @@ impl Engine for StakeSim {
                         11 => Jump::ToMaturityMinusNanos(rng.range(1, 999_999_999) as u32),
                         12 => Jump::ToMaturityPlusNanos(rng.range(1, 999_999_999) as u32),
                         _ => {
-                            let s = match rng.below(5) {
+                            let s = match rng.below(6) {
+                                // exactly one year, one second less, one second more; exactly the unbonding time +- 1
+                                5 => *rng.pick(&[365 * 86_400u64, 365 * 86_400 - 1, 365 * 86_400 + 1, unbonding_secs.saturating_sub(1).max(1), unbonding_secs + 1, 1]),
                                 0 => rng.range(1, 120),
                                 1 => rng.range(1, 86_400),
                                 2 => rng.range(1, 365 * 86_400),
